@@ -96,3 +96,11 @@ CORPUS += [
     Mut('c08-benign-skyride-fixed-tree-expanded-with-a-tuple', 'torchtree/evolution/coalescent.py', 'PiecewiseConstantCoalescent._sorted_terms', 'heights = node_heights.expand(batch_shape + torch.Size([-1]))',
         'heights = node_heights.expand(batch_shape + (-1,))', benign=True),
 ]
+CORPUS += [
+    Mut('c08-coalescent-model-keeps-its-distribution', 'torchtree/evolution/coalescent.py', 'AbstractCoalescentModel._call', 'coalescent = self.distribution()',
+        "if getattr(self, '_coalescent', None) is None:\n    self._coalescent = self.distribution()\ncoalescent = self._coalescent", expect=[], benign=True,
+        note='getattr form is outside the recognised memo idiom (silent); the seeded change c08-agent-13 uses the recognised one'),
+    Mut('c08-event-marks-kept-on-the-class', 'torchtree/evolution/coalescent.py', 'PiecewiseConstantCoalescentGrid._sorted_terms', 'indices = torch.argsort(heights, descending=False)',
+        'self._event_marks[heights.shape] = node_mask\nindices = torch.argsort(heights, descending=False)', expect=[('C08.M', 'PiecewiseConstantCoalescentGrid._sorted_terms::_event_marks::container-shared-by-all-instances')],
+        more=[dict(scope='', old="class PiecewiseConstantCoalescentGrid(AbstractCoalescentDistribution):\n", new="class PiecewiseConstantCoalescentGrid(AbstractCoalescentDistribution):\n    _event_marks = {}\n\n", mode='text')]),
+]
